@@ -188,7 +188,9 @@ static void family(const Case &c) {
             // strictly inside the ring; with 6 or more of them enclosed (ring around half the globe or more) the walk closes again
             int pin = 0, pon = 0;
             for (auto &kv : refd) if (ref::is_pentagon(kv.first)) { if (kv.second < k) pin++; else if (kv.second == k) pon++; }
-            const char *rsig = (pin >= 6 && pon == 0) ? "ring-encloses-6+-pentagons" : "ring-wrong";
+            // ... from a HEXAGON origin: from a pentagon origin the walk is refused up front (E_PENTAGON) on the pinned tree, so a successful
+            // wrong ring from a pentagon is a different defect and is never excluded
+            const char *rsig = (pin >= 6 && pon == 0 && !ref::is_pentagon(o)) ? "ring-encloses-6+-pentagons" : "ring-wrong";
             for (size_t i = 0; i < rn; i++) {
                 H3Index x = ring[i];
                 auto it = x ? refd.find(x) : refd.end();
